@@ -808,6 +808,7 @@ def correspond(ctx):
                         ctx.violation("hasher-cbuild-diff:%s" % lines[i][:300], "oracle",
                                       "hasher.c compiled into the C harness and into the interpreter disagree on `%s`: %s vs %s" % (lines[i][:200], o[:100], ilines[i][:100]),
                                       detail={"case": lines[i]})
+    lua_idx = list(impl_idx)      # the cases ops.lua understands (the interpreter-level sanitizer stream below is fed only these)
     impl_idx = sorted(impl_idx + [i for i in s_idx if i in ilines])
     nontrivial = set()
     per_op = {}
@@ -894,9 +895,9 @@ def correspond(ctx):
             san["build_error"] = str(ex)[-300:]
         if sexe:
             big = ("cross", "b58-exhaustive")
-            sidx = [i for i in impl_idx if cases[i][0] not in big]
+            sidx = [i for i in lua_idx if cases[i][0] not in big]      # never the C-harness-only ops (S)
             for nm, k in (("cross", 6000), ("b58-exhaustive", 20000)):
-                pool = [i for i in impl_idx if cases[i][0] == nm]
+                pool = [i for i in lua_idx if cases[i][0] == nm]
                 sidx += ctx.rng.sample(pool, min(len(pool), k))
             sidx.sort()
             slines = [lines[i] for i in sidx]
@@ -941,11 +942,4 @@ def correspond(ctx):
         "sanitizer_stream": san,
         "sanitizer_c_harness": charness,
         "unproved": list(UNPROVED),
-        "limits": ["model = C code is not a theorem: the tie is the regenerated tables (T) plus this correspondence (C)",
-                   "the t0 -> t1 counter carry of blake2b_incr is modelled and proved against the RFC's 128-bit counter but cannot be "
-                   "observed by correspondence (needs a message of 2^64 bytes)",
-                   "blake2b_update's byte-alignment loop is unreachable from the Lua API (one-shot blake2b); it is covered by theorem "
-                   "C20_blake2b_streaming only",
-                   "hasher.blake2b(m, digln): digln is truncated to a C int before the range check, so e.g. 2^32+5 is accepted as 5 "
-                   "(outside the property's domain 1..64; mirrored by the model, compared model-vs-implementation only)"],
     }
